@@ -46,8 +46,9 @@ ASSUMPTIONS = [
     "counter (pc or pc+1) unchecked, and a byte-sized statement following an odd-length one in the same slot "
     "ends the checking of that slot: the DC section ('adds another byte if the byte sum becomes odd') and the "
     "PADDING section ('inserted before the 16 bit object') disagree there",
-    "the default setting of PADDING is never relied upon: every program for 68000/6809/MSP430 starts with an "
-    "explicit PADDING ON/OFF (manual: 'by default only enabled for the 680x0 family'; behaviour and the golden "
+    "the default setting of PADDING is relied upon only for the 680x0 family (40 % of its programs carry no PADDING "
+    "statement, most of them select another CPU family first), where the manual is explicit; every program for "
+    "6809/MSP430 starts with an explicit PADDING ON/OFF (manual: 'by default only enabled for the 680x0 family'; behaviour and the golden "
     "tests t_msppad/t_avr8: also on for MSP430, 6809, 6805, TMS9900, AVR byte mode)",
     "DC/DS without attribute are only generated for the 68000 (DC section: default W; 6809: natural size B)",
     "floats above the largest finite value of the format that would still round to it are not generated "
@@ -635,7 +636,12 @@ def strategy_(d, tier):
     lo, hi = QUICK_SLOTS if tier == "quick" else THOROUGH_SLOTS
     nslots = d.int(lo, hi)
     items = []
-    if t.get("has_padding"):
+    precpu = None
+    if tgt == "68000" and d.bool(0.4):
+        # 680x0: PADDING is documented to be on by default ("by default only enabled for the 680x0 family") - also
+        # when another family, which has it off, was selected earlier in the same source
+        precpu = d.choice([None, "6811", "6809", "z80", "8051", "6502", "hd6413309", "sh7000", "st7"])
+    elif t.get("has_padding"):
         # the default of PADDING is never relied upon (manual and behaviour disagree for non-680x0 targets)
         di = dict(dir="padding", on=d.bool(0.6))
         sim.st.directive(di)
@@ -683,7 +689,10 @@ def strategy_(d, tier):
                 break
         items.append(dict(odd=odd, stmts=stmts))
     cpu = d.choice(CPU_VARIANTS[tgt]) if tgt in CPU_VARIANTS else t["cpu"]
-    return dict(tgt=tgt, cpu=cpu, upper=d.bool(0.3), syms=syms, items=items)
+    case = dict(tgt=tgt, cpu=cpu, upper=d.bool(0.3), syms=syms, items=items)
+    if precpu:
+        case["precpu"] = precpu
+    return case
 
 
 def strategy(tier):
@@ -871,6 +880,9 @@ def analyse(case, drop_invalid):
     pl = Plan()
     L = pl.lines
     multipass = any(f for _, f in syms)
+    if case.get("precpu"):
+        L.append("\tcpu\t" + case["precpu"])
+        pl.tags.append("680x0-after-other-family-default-padding")
     L.append("\tcpu\t" + (case.get("cpu") or t["cpu"]))
     for i, (v, fwd) in enumerate(syms):
         if not fwd:
